@@ -9,6 +9,8 @@ UNIQUE / CHECK failure after successful DDL and DML, missing object, FK failure 
 BEGIN / COMMIT / ROLLBACK / SAVEPOINT shapes: failing inside an open transaction, ending with an open
 transaction, balanced, COMMIT without BEGIN) or none, plus failures AFTER a fully successful replay
 (invalid --exclude glob, --format template error, unwritable new migration file, plan failing on the target), plus
+a statement that is a block of several commands (custom '-- atlas:delimiter' file) failing at its 2nd … last command as
+the very first / a later statement of the replay, a replay that takes much longer than --lock-timeout (generated rows), and
 inputs that hold nothing to replay (migration directory that is empty / holds only atlas.sum / only a README, schema
 directory without .sql file, empty or comment-only SQL schema, empty HCL schema) x
 dev start states {missing, empty file, empty db, tables+rows, empty table, view only, view+trigger,
@@ -375,7 +377,6 @@ def run_case(c, verbose=False):
     if c.get("slow"):
         lt = c.get("lock_timeout") or "default"
         pc = "slow-replay:%s:lock-timeout=%s" % (c["slow"]["slot"], lt)
-        events["elapsed_s"] = round(t_run, 2)
         ctx.count("variant:slow-replay")
         if lt != "default":
             # the run is only a test of "the lock timeout does not bound the replay" when it outlasted the timeout
@@ -388,7 +389,7 @@ def run_case(c, verbose=False):
               "dev_after": {k: after[k] for k in ("exists", "sha", "size", "side", "master", "integrity")},
               "dir_delta": {"added": sorted(set(dir_after) - set(dir_before)), "removed": sorted(set(dir_before) - set(dir_after)),
                             "changed": sorted(k for k in dir_before if k in dir_after and dir_before[k] != dir_after[k])},
-              "info": info}
+              "info": info, "elapsed_s": round(t_run, 2)}
     if verbose:
         import json
         print(json.dumps({"case": c, "observed": events}, indent=1, default=str))
